@@ -4,3 +4,11 @@ import SparseV.Props.C09
 #print axioms SparseV.C09.triu_keys_sublist
 #print axioms SparseV.C09.tril_keys_sublist
 #print axioms SparseV.C09.triu_sorted
+#print axioms SparseV.C09.concat_get
+#print axioms SparseV.C09.concat_axis0_sorted
+#print axioms SparseV.C09.stack_get
+#print axioms SparseV.C09.stack_index_form
+#print axioms SparseV.C09.diagonal_get
+#print axioms SparseV.C09.diagSrc_spec
+#print axioms SparseV.locate_spec
+#print axioms SparseV.locate_unique
